@@ -175,6 +175,12 @@ def make_externals():
         return [(st, SStr((("suffix_from", repr(hay.key()), nd),)))]
     X["strstr"] = strstr
 
+    def nanf(interp, st, args, n):
+        return [(st, ("nan", 32))]
+    X["__builtin_nanf"] = nanf
+    X["__builtin_nan"] = lambda interp, st, args, n: [(st, ("nan", 64))]
+    TRUSTED["__builtin_nanf"] = "NAN is a quiet NaN of the float type (0x7FC00000)"
+
     @ext("malloc/free", "malloc returns a fresh block of the requested size (its failure branch calls exit); free releases it")
     def malloc(interp, st, args, n):
         st = st.copy()
